@@ -73,6 +73,8 @@ def gen_case(rng, cid, variant=None, k=None, fresh_p=0.3):
     lines = [f"case {cid}",
              f"new {v} {mode} {k} {sen} " + " ".join(",".join(map(str, q)) if q else "-" for q in seqs)]
     lines += storage_lines(rng, v, fresh_p)
+    if rng.random() < 0.6:
+        lines.append("ctor " + rng.choice(["temp", "mutate", "factory"]))
     lines.append(init_line(rng, k))
     lines += ["replace"] * (total + 1)
     return lines
@@ -127,7 +129,8 @@ def exhaustive_cases(kmax, variants, start_id):
                 st = ([[], ["storage slot"], ["storage fresh"]][(cid // 3) % 3]) if v[0] == "p" else []
                 cs.append([f"case x{cid}",
                            f"new {v} lt {k} {sen} " + " ".join(",".join(map(str, q)) if q else "-" for q in seqs)]
-                          + st + [order] + ["replace"] * (total + 1))
+                          + st + [["ctor named"], ["ctor temp"], ["ctor mutate"], ["ctor factory"]][(cid // 9) % 4]
+                          + [order] + ["replace"] * (total + 1))
                 cid += 1
     return cs
 
